@@ -319,6 +319,25 @@ FieldOffsetW(wf) == wf => AllOf(AllLevels, LAMBDA lv : LevelOffsetsOK(lv.def))
 ElementOffsetW(wf) == wf => AllOf(CompositeNodes, LAMBDA n : CompOffsetsOK(n.e))
 BlockLengthW(wf) ==
   wf => AllOf(AllLevels, LAMBDA lv : lv.def.blockLength >= 0 => lv.def.blockLength >= MinBL(lv.def))
+\* A <data> member is represented as a length prefix immediately followed by the
+\* payload (dynamic_array_ref knows the type of `length` and nothing else about the
+\* header composite).  A data header whose `length` is not at offset 0, whose
+\* `varData` does not start right after it, or that holds anything else that
+\* occupies space describes an image the library cannot produce or read: it is a
+\* malformed level header.  (Found in round 4: sbeppc accepted such headers and
+\* wrote the prefix at +0 and the payload right after it whatever the offsets said.)
+MemberIdx(c, n) == CHOOSE k \in 1 .. Len(c.elements) : c.elements[k].name = n
+DataLayoutOK(tn) ==
+  LET c == TypeNamed(tn)
+      lay == CLayout(c)
+      li == MemberIdx(c, "length")
+      vi == MemberIdx(c, "varData")
+  IN /\ lay[1][li] = 0
+     /\ lay[1][vi] = CompSizes(c)[li]
+     /\ lay[2] = CompSizes(c)[li]
+DataLayoutW(wf) ==
+  wf => AllOf(AllLevels, LAMBDA lv : AllOf(lv.def.data, LAMBDA d : CompOffsetsOK(TypeNamed(d.type)) => DataLayoutOK(d.type)))
+R_DataLayout == DataLayoutW(WellFormed)
 R_FieldOffset == FieldOffsetW(WellFormed)
 R_ElementOffset == ElementOffsetW(WellFormed)
 R_BlockLength == BlockLengthW(WellFormed)
@@ -447,7 +466,7 @@ R_Unique == R_Unique_type /\ R_Unique_message /\ R_Unique_member /\ R_Unique_ele
 
 ----------------------------------------------------------------------------
 RuleNames == {"R_RefExists", "R_RefKind.enc", "R_RefKind.header", "R_RefKind.dim", "R_RefKind.data",
-              "R_RefKind.valueRef", "R_NoCycle", "R_FieldOffset", "R_ElementOffset", "R_BlockLength",
+              "R_RefKind.valueRef", "R_NoCycle", "R_FieldOffset", "R_ElementOffset", "R_BlockLength", "R_DataLayout",
               "R_ArraySingleByte", "R_ValueFits.min", "R_ValueFits.max", "R_ValueFits.null", "R_ValueFits.const",
               "R_ValueFits.enum", "R_ChoiceIndex", "R_Name", "R_Keyword", "R_Unique.type", "R_Unique.message",
               "R_Unique.member", "R_Unique.element", "R_Unique.value", "R_Unique.choice"}
@@ -462,6 +481,7 @@ HoldsW(r, wf) ==
               [] r = "R_FieldOffset" -> FieldOffsetW(wf)
               [] r = "R_ElementOffset" -> ElementOffsetW(wf)
               [] r = "R_BlockLength" -> BlockLengthW(wf)
+              [] r = "R_DataLayout" -> DataLayoutW(wf)
               [] r = "R_ArraySingleByte" -> R_ArraySingleByte
               [] r = "R_ValueFits.min" -> R_ValueFits_min
               [] r = "R_ValueFits.max" -> R_ValueFits_max
@@ -482,7 +502,7 @@ Broken == LET wf == WellFormed IN {r \in RuleNames : ~HoldsW(r, wf)}
 
 Valid ==
   /\ R_RefExists /\ R_RefKind /\ R_NoCycle       \* = WellFormed, so the next line may assume it
-  /\ FieldOffsetW(TRUE) /\ ElementOffsetW(TRUE) /\ BlockLengthW(TRUE)
+  /\ FieldOffsetW(TRUE) /\ ElementOffsetW(TRUE) /\ BlockLengthW(TRUE) /\ DataLayoutW(TRUE)
   /\ R_ArraySingleByte
   /\ R_ValueFits_min /\ R_ValueFits_max /\ R_ValueFits_null /\ R_ValueFits_const /\ R_ValueFits_enum
   /\ R_ChoiceIndex
